@@ -7,7 +7,6 @@ NA = {
     'C08': 'check under construction in this session',
     'C09': 'check under construction in this session',
     'C10': 'check under construction in this session',
-    'C11': 'check under construction in this session',
     'C12': 'check under construction in this session',
     'C13': 'not applicable: whole-pipeline functional statement whose oracle is a JSON parser; the pieces that have contracts are decided under C04 (escapes), C08 (numbers/literals) and C02 (nesting)',
     'C14': 'check under construction in this session',
